@@ -1,5 +1,6 @@
 """C16 -- export followed by import reproduces the object exactly."""
 import itertools
+import zlib
 import os
 import shutil
 import tempfile
@@ -145,8 +146,21 @@ def run_case(case, ctx):
         shutil.rmtree(d, ignore_errors=True)
 
 
+def _failed_export_first(ctx, obj, path, dig):
+    if zlib.crc32(repr(dig).encode()) % 3 != 0:
+        return
+    # object history: an earlier export of this very object that failed part-way (a number format that cannot be applied, met
+    # when the first value is written): the object is as it was, and the export that follows is not influenced
+    bad = ["%z", "%d%d", "%"][zlib.crc32(repr(dig).encode()) // 3 % 3]
+    r0 = ctx.call("export_data", ttb.export_data, obj, path + ".failed", fmt_data=bad, fmt_weights=bad)
+    ctx.feat(after_failed_export=not r0.ok)
+    ctx.tag("after-failed-export-of-the-same-object" if not r0.ok else "bad-format-accepted")
+    ctx.check(state_digest(obj) == dig, "export_data", "MUTATED", f"an export that failed ({type(r0.exc).__name__ if not r0.ok else 'no error'}) changed the object")
+
+
 def _roundtrip(ctx, obj, path, **kw):
     dig = state_digest(obj)
+    _failed_export_first(ctx, obj, path, dig)
     r = ctx.call("export_data", ttb.export_data, obj, path)
     if not r.ok:
         ctx.check(False, "export_data", "RAISE:" + type(r.exc).__name__, f"{type(r.exc).__name__}: {r.exc} | {r.tb}")
@@ -253,6 +267,7 @@ def _run(case, ctx, rng, shape, path):
         ctx.feat(subs_dtype=str(sdt))
         ctx.feat(pattern=pat, base=case["base"])
         dig = state_digest(S)
+        _failed_export_first(ctx, S, path, dig)
         r = ctx.call("export_data", ttb.export_data, S, path)
         if not r.ok:
             ctx.check(False, "export_data", "RAISE:" + type(r.exc).__name__, f"{type(r.exc).__name__}: {r.exc} | {r.tb}")
